@@ -41,6 +41,21 @@ def unauthorised(sc, n):
 
 
 CONFIG = {
+    'C02': {
+        'profiles': [('receive-history', 60, 1500), ('flows', 25, 600), ('receive-matrix', 100, 2000)],
+        'rules': [(r'TX:ReceiveMessage', 'R', None), (ANY, 'S', r'^nonce '), (r'Q:UsedNonces?$', 'QR', None), (r'EXPORT', 'X', r'^nonce ')],
+        'monitors': [M.mon_c02],
+        'level_text': 'Theorems over all histories of any length from any chain and all pairs in uint32 x uint64: at most one receive of a pair succeeds (none if the pair was already used), a used pair stays used under every transaction type, a pair is used only if the start state listed it or a receive of it succeeded, the store key is injective and decoded headers are in range. The Go keeper is tied to the model by differential execution of receive histories over colliding pools of pairs with retries after failures, attester rotation, pausing and re-linking; the at-most-once monitor runs on the implementation trace.',
+    },
+    'C07': {
+        'profiles': [('outbound', 60, 1500), ('flows', 25, 600), ('replace', 25, 600)],
+        'rules': [(r'TX:(SendMessage|SendMessageWithCaller|DepositForBurn|DepositForBurnWithCaller|ReplaceMessage|ReplaceDepositForBurn)$', 'R', None),
+                  (ANY, 'S', r'^num name=nextnonce'), (r'Q:NextAvailableNonce', 'QR', None),
+                  (r'TX:(SendMessage|SendMessageWithCaller|DepositForBurn|DepositForBurnWithCaller|ReplaceMessage|ReplaceDepositForBurn)$', 'E', r'MessageSent')],
+        'monitors': [M.mon_c07],
+        'level_text': 'Theorems: a successful producer returns the counter value it found, emits a message carrying that nonce and advances the counter by one; every other transaction (failed attempts, replacements, all other types) leaves the counter alone; along every history the counter equals start + number of successes mod 2^64; replacements re-emit the original nonce. The Go keeper is tied to the model by differential execution of interleaved sends, deposits, replacements and failures from several starting counters (absent, 0, random, 2^64-2).',
+        'assumptions': ['the uint64 wrap after 2^64 - start successful sends is the code\'s arithmetic and is written into the model (mod 2^64); it is not treated as a finding'],
+    },
     'C10': {
         'profiles': [('roles-matrix', 324, 324), ('admin-random', 30, 600)],
         # the property speaks about submitters who do not hold the role: only those steps are compared
